@@ -98,7 +98,8 @@ func failuresOf(at attempt) []Failure {
 				f.Frames = append(f.Frames, short(fr))
 			}
 			if len(f.Frames) > 0 {
-				f.Fn = f.Frames[0]
+				f.Fn = fnOf(f.Frames[0])
+				f.Loc = locOf(f.Frames[0])
 			}
 			out = append(out, f)
 		}
@@ -399,11 +400,60 @@ func envInt(name string, def int) int {
 	return def
 }
 
+// triage (development aid): VERIF_C07_TRIAGE=<json map sig -> {case}> re-runs each sample alone and writes the
+// observed signatures with locations next to it.
+func triage(e *engine, path string) {
+	b, err := os.ReadFile(path)
+	if err != nil {
+		return
+	}
+	var m map[string]struct {
+		Case Case `json:"case"`
+	}
+	if json.Unmarshal(b, &m) != nil {
+		return
+	}
+	var keys []string
+	for k := range m {
+		keys = append(keys, k)
+	}
+	sort.Strings(keys)
+	var sb strings.Builder
+	for _, k := range keys {
+		if strings.HasPrefix(k, "hang") && os.Getenv("VERIF_C07_TRIAGE_HANGS") != "1" {
+			continue
+		}
+		c := m[k].Case
+		img, _, err := e.image(c)
+		if err != nil {
+			continue
+		}
+		fails, inc := e.evalAlone(c, img)
+		cj, _ := json.Marshal(c)
+		fmt.Fprintf(&sb, "## %s\n   case %s\n", k, cj)
+		if inc != "" {
+			fmt.Fprintf(&sb, "   inconclusive %s\n", inc)
+		}
+		for _, f := range fails {
+			fmt.Fprintf(&sb, "   -> %s @%s op=%s msg=%q\n      %s\n", f.Sig(), f.Loc, f.Op, f.Msg, strings.Join(f.Frames, " < "))
+		}
+	}
+	_ = os.WriteFile(path+".triage.txt", []byte(sb.String()), 0o644)
+}
+
 func campaign(t *testing.T) {
 	env := vt.GetEnv()
 	rec := vt.Recorder(prop)
 	e := newEngine()
 	st := newStats()
+	if tp := os.Getenv("VERIF_C07_TRIAGE"); tp != "" {
+		if env.Shard == 0 {
+			triage(e, tp)
+		}
+		rec.Case(sub, Case{Base: "triage"}, true)
+		rec.Case(sub, Case{Base: "triage2"}, true)
+		return
+	}
 	for _, n := range e.reg.notes {
 		if env.Shard == 0 {
 			rec.Note("%s", n)
